@@ -104,7 +104,7 @@ def run(rep):
         elif not r.startswith("val "):
             rep.violation(dict(kind="oracle", what="read returned %s" % r, case=c, impl=o))
     # 2. concurrent groups under the real scheduler: linearizability against the model
-    n = 150 if rep.tier == "quick" else 8000
+    n = 1000 if rep.tier == "quick" else 8000
     if LS.broken(sk):
         n = max(n, 1500)        # a proof obligation about the source broke: search harder for a concrete failing input
     cases = [gen_case(rng, "l%d" % i) for i in range(n)]
